@@ -21,7 +21,10 @@ sys.path.insert(0, VERIF)
 
 
 def sh(cmd, cwd, timeout=600):
-    r = subprocess.run(cmd, cwd=cwd, shell=True, capture_output=True, text=True, timeout=timeout)
+    env = dict(os.environ)
+    env["PYTHONPATH"] = cwd
+    env["PYTHONDONTWRITEBYTECODE"] = "1"
+    r = subprocess.run(cmd, cwd=cwd, shell=True, capture_output=True, text=True, timeout=timeout, env=env)
     return r.returncode, (r.stdout + r.stderr)
 
 
